@@ -41,6 +41,10 @@ ALL_NAMES = ["sha1", "sha256", "sha1_git", "blake2s256", "blake2b512", "md5", "s
 DEFAULT = ["sha1", "sha256", "sha1_git", "blake2s256"]
 
 
+def must_fail_any_len(names):
+    return False
+
+
 def hashlib_new(base):
     if base.startswith("blake2s"):
         return hashlib.blake2s(digest_size=int(base[7:]) // 8)
@@ -146,6 +150,52 @@ class ShortReader:
             return p
         self.parts[0] = p[n:]
         return p[:n]
+
+
+class NestedReader(io.BytesIO):
+    """file object that hashes other bytes through the library while it is being read (a reader keeping
+    its own checksums): one hashing call runs in the middle of another, on one thread"""
+
+    def _nested(self):
+        from swh.model import hashutil as hu
+
+        hu.MultiHash.from_data(b"\xa5" * (hu.HASH_BLOCK_SIZE + 17)).digest()
+        hu.MultiHash.from_file(io.BytesIO(b"\x5a" * 4099), length=4099).digest()
+
+    def read(self, n=-1):
+        r = super().read(n)
+        self._nested()
+        return r
+
+    def readinto(self, b):
+        k = super().readinto(b)
+        self._nested()
+        return k
+
+
+def hashed_in_threads(datas, names):
+    """hash several byte strings at the same time, one thread each, started together"""
+    import threading
+
+    from swh.model import hashutil as hu
+
+    res = [None] * len(datas)
+    gate = threading.Barrier(len(datas))
+
+    def work(i):
+        try:
+            gate.wait(timeout=20)
+            for _ in range(3):
+                res[i] = mh_obs(hu.MultiHash.from_data(datas[i], hash_names=set(names)))
+        except Exception as e:  # reported by the caller as a difference
+            res[i] = {"error": type(e).__name__}
+
+    ts = [threading.Thread(target=work, args=(i,), daemon=True) for i in range(len(datas))]
+    for t in ts:
+        t.start()
+    for t in ts:
+        t.join(60)
+    return res
 
 
 _TMP = {"dir": None}
@@ -286,6 +336,14 @@ def check_cases(ctx, cases):
         route("stream_with_reads", manual_with_reads)
         route("from_file", lambda: mh_obs(hashutil.MultiHash.from_file(io.BytesIO(data), hash_names=shared_names, length=length)))
         route("short_reads", lambda: mh_obs(hashutil.MultiHash.from_file(ShortReader(data, case["reads"]), hash_names=shared_names, length=length)))
+        route("nested_reads", lambda: mh_obs(hashutil.MultiHash.from_file(NestedReader(data), hash_names=shared_names, length=length)))
+        if known and n >= 2048 and ci % 3 == 0 and not must_fail_any_len(names):
+            # the same and other bytes hashed by four threads at once
+            datas = [data, bytes(b ^ 0xFF for b in data), data[::-1], data + data[: n // 2]]
+            for i_, got_ in enumerate(hashed_in_threads(datas, names)):
+                if got_ != oracle_expected(datas[i_], names):
+                    ctx.fail(case, "hashing in four threads at once: a digest differs from hashlib on the same bytes", "route-differs:threads", {"thread": i_, "got": got_})
+                    break
         path = os.path.join(tmpdir(), "f%d" % (ci % 4))
         with open(path, "wb") as f:
             f.write(data)
@@ -305,7 +363,7 @@ def check_cases(ctx, cases):
         # ---------------- oracle on the implementation: every route == hashlib, sha1_git == git blob id
         must_fail_nolen = any(x.endswith("_git") for x in names) and length is None
         for tag, (st, val) in obs.items():
-            uses_len = tag in ("stream", "stream_with_reads", "from_file", "short_reads")
+            uses_len = tag in ("stream", "stream_with_reads", "from_file", "short_reads", "nested_reads")
             if not known or (uses_len and must_fail_nolen):
                 if st != "err":
                     ctx.fail(case, f"route {tag}: an unknown name / git name without length is not rejected", "bad-names-accepted")
